@@ -58,6 +58,9 @@ comp("C33", "specs/obs/EvLog.tla (EvLogMC.tla, EvLogTrace.tla)", "event log capt
 comp("C34", "specs/obs/HwLog.tla (HwLogMC.tla, HwLogTrace.tla)", "hardware logs and assertions fire exactly when triggered")
 comp("C39", "specs/core/RoundRobin.tla (RoundRobinMC.tla, RoundRobinTrace.tla)", "RoundRobin arbiters grant a requester, one at a time, with bounded wait")
 comp("C42", "specs/util/DepManager.tla (DepManagerMC.tla)", "DependencyManager keys: single/list keys, caching, locking, defaults")
+comp("C43", "specs/util/Testbench.tla (TestbenchMC.tla, TestbenchTrace.tla)", "TestbenchIO.call / call_try / CallTrigger call protocol and MethodMock effects and same-cycle results",
+     "Bounded universe of testbench programs (<= 2 operations per process in the exhaustive model, <= 12 in recorded runs); a TestbenchIO is driven by one process at a time; "
+     "cycle-exact stimulus comes from hardware ROMs; Amaranth's Python simulator is trusted.")
 EXPL = "exploration"
 def fn(pid, spec, what, ref="4.3, 5"):
     CHECKS[pid] = (EXPL,
@@ -70,5 +73,3 @@ fn("C37", "specs/fn/Shifters.tla (C37Rows.tla, C37Laws.tla)", "shifters and rota
 fn("C38", "specs/fn/Encoders.tla (C38Rows.tla, C38Laws.tla)", "encoders, one-hot multiplexers and selecting networks")
 fn("C40", "specs/fn/Assign.tla (AssignMC.tla)", "assign raises exactly when it must and otherwise copies exactly the selected fields")
 fn("C41", "specs/fn/DataHelpers.tla (C41Rows.tla, C41Laws.tla)", "data helpers")
-NOT_APPLICABLE["C43"] = ("not claimed: no check was built for the testbench helpers (the TLA+ technique applies -- a call-protocol spec validated against "
-                         "recorded testbench traces -- but the work was not reached); nothing is asserted about C43")
